@@ -49,14 +49,22 @@ func batchSrc(prop string, cases [][]string, out *bufio.Writer) {
 		return
 	}
 	// the hand-off code ends in log.Panic (= os.Exit) on read errors: every case runs in a child process
+	// a fresh process per case: a syncer whose source went away keeps reconnecting for ever, and the
+	// ephemeral port of an earlier case's source can be handed to a later case's source
+	perChildLimit = 1
 	isolatedCases(prop, cases, 24, out, one)
+	perChildLimit = 0
 	_ = workers
 }
 
 func runSrc(c []string, id int, tmp string) string {
 	if c[1] == "e2e" {
 		// <id> e2e <rdbhex> <cmdshex>: the whole start path (Sync) against the scripted source and fakeredis
-		return "e2e " + runSecrets([]string{c[0], "sync", "-", "-", "error", c[2], c[3]})
+		tdb := "-1"
+		if len(c) > 4 {
+			tdb = c[4]
+		}
+		return "e2e " + runSecrets([]string{c[0], "sync", "-", "-", "error", c[2], c[3], tdb})
 	}
 	start, _ := strconv.ParseInt(c[2], 10, 64)
 	nrdb, _ := strconv.Atoi(c[3])
